@@ -48,6 +48,8 @@ CASES = [
     ('Batch', 'c07', lambda tr: _set(tr, 'pointwise', 'res', 10**9)),
     ('EnvContract', 'c16', bump('digest', pick=lambda t: len(t) - 2)),
     ('InferenceFlow', 'c20-flow', bump('stats', pick=lambda t: 2)),      # the preprocess call must receive the supplied statistics
+    ('EnvRewards', 'x06', bump('reward', delta=50)),
+    ('EnvRewards', 'x06', bump('psi', delta=500)),        # the forward law is a law across two steps
     ('InferenceFlow', 'c20-flow', bump('actions', pick=lambda t: [k for k, e in enumerate(t) if e['ev'] == 'log_prob'][0])),
 ]
 
